@@ -653,8 +653,10 @@ example : gathered (exStateX.pads.take 2) 0 1 2 = [{ id := 5, frame := 0, data :
   decide +kernel
 
 /-! #### pad_same_decode: the oracle hypothesis is satisfiable, and the packet hypotheses hold for `pkA` -/
-example (d : Int) : OracleShift exOracle exOracle d :=
-  { silk := fun _ _ => rfl, celt := fun _ a => by simp [Opus.DecSkel.exOracle, CeltArgs.shiftOff], bit := fun _ _ _ => rfl, uint := fun _ _ _ => rfl }
+def exOr : Oracle :=
+  { silk := fun _ _ => (0, 0, 1), celt := fun _ a => a.frame_size, bit := fun _ _ t => (0, t), uint := fun _ _ t => (0, t) }
+example (d : Int) : OracleShift exOr exOr d :=
+  { silk := fun _ _ => rfl, celt := fun _ _ => rfl, bit := fun _ _ _ => rfl, uint := fun _ _ _ => rfl }
 example : ∃ y r', packetPad pkA 9 = .ok y ∧ parseImpl false y = .ok r' ∧ r'.payloadOffset = 3 := by
   obtain ⟨y, r', h1, h2, _⟩ := pad_same_decode pkA (by decide)
     { toc := 0x80, count := 1, sizes := [3], payloadOffset := 1, padLen := 0, packetOffset := 4 } (by decide +kernel)
